@@ -1,4 +1,5 @@
 import CollectionsC.Proofs.ArrayStep
+import CollectionsC.Proofs.ArrayGrowth
 /-! Ledger facets of the dynamic-array model that the cross-cutting properties need:
 * `Led m m' r`: the C-library counter `libc` is untouched (C14) and the refusal counter moved by
   exactly one iff `r` (C08 `refused_iff`);
@@ -11,54 +12,125 @@ open CC.Spec.Seq (Cfg Op Out IterOp)
 
 /-! ### primitives -/
 
-theorem alloc_congr {m1 m2 : Mem} (h : m1.sched = m2.sched) :
-    m1.alloc.1 = m2.alloc.1 ∧ m1.alloc.2.sched = m2.alloc.2.sched := by
-  unfold Mem.alloc; rw [h]; split <;> simp
+theorem allocT_congr {m1 m2 : Mem} (h : m1.sched = m2.sched) (t : Triple) :
+    (m1.allocT t).1 = (m2.allocT t).1 ∧ (m1.allocT t).2.sched = (m2.allocT t).2.sched := by
+  cases t with
+  | conf => simp only [Mem.allocT_conf]; unfold Mem.alloc; rw [h]; split <;> simp
+  | libc => exact ⟨rfl, h⟩
 
-theorem free_sched (m : Mem) : m.free.sched = m.sched := by unfold Mem.free; split <;> rfl
-theorem free_libc (m : Mem) : m.free.libc = m.libc := by unfold Mem.free; split <;> rfl
-theorem free_nrefused (m : Mem) : m.free.nrefused = m.nrefused := by unfold Mem.free; split <;> rfl
-theorem check_nrefused (m : Mem) (b : Bool) : (m.check b).nrefused = m.nrefused := by cases b <;> rfl
+theorem freeT_sched (m : Mem) (t : Triple) : (m.freeT t).sched = m.sched := by
+  cases t with
+  | conf => simp only [Mem.freeT_conf]; unfold Mem.free; split <;> rfl
+  | libc => simp only [Mem.freeT]; split <;> rfl
 
-theorem alloc_led (m : Mem) :
-    m.alloc.2.libc = m.libc ∧ m.alloc.2.nrefused = m.nrefused + (if m.alloc.1 then 0 else 1) := by
-  unfold Mem.alloc; split <;> simp
+/-- what a call through the triple `t` leaves alone: the counters of the *other* allocator.  For the
+configured triple these are the C-library counters (`libc`, `lalloc`, `lfree`, `liveLibc`); for the
+C-library triple the configured ones (`live`, `nalloc`, `nfree`) and the schedule of refusals. -/
+def Foreign (t : Triple) (m m' : Mem) : Prop :=
+  match t with
+  | .conf => m'.liveLibc = m.liveLibc ∧ m'.libc = m.libc ∧ m'.lalloc = m.lalloc ∧ m'.lfree = m.lfree
+  | .libc => m'.live = m.live ∧ m'.nalloc = m.nalloc ∧ m'.nfree = m.nfree ∧ m'.sched = m.sched
 
-/-- ledger effect of a call: `libc` untouched, the refusal counter advanced iff `r` -/
-def Led (m m' : Mem) (r : Bool) : Prop :=
-  m'.libc = m.libc ∧ m'.nrefused = m.nrefused + (if r then 1 else 0)
+theorem Foreign.rfl' (t : Triple) (m : Mem) : Foreign t m m := by cases t <;> exact ⟨rfl, rfl, rfl, rfl⟩
+theorem Foreign.trans {t : Triple} {m m' m'' : Mem} (h1 : Foreign t m m') (h2 : Foreign t m' m'') : Foreign t m m'' := by
+  cases t with
+  | conf => obtain ⟨x1, x2, x3, x4⟩ := h1; obtain ⟨y1, y2, y3, y4⟩ := h2
+            exact ⟨by rw [y1, x1], by rw [y2, x2], by rw [y3, x3], by rw [y4, x4]⟩
+  | libc => obtain ⟨x1, x2, x3, x4⟩ := h1; obtain ⟨y1, y2, y3, y4⟩ := h2
+            exact ⟨by rw [y1, x1], by rw [y2, x2], by rw [y3, x3], by rw [y4, x4]⟩
 
-theorem Led.rfl' (m : Mem) : Led m m false := ⟨rfl, by simp⟩
-theorem Led.of_eq {m m' : Mem} (h : m' = m) : Led m m' false := by subst h; exact Led.rfl' _
-theorem Led.trans {m m' m'' : Mem} {r : Bool} (h1 : Led m m' false) (h2 : Led m' m'' r) : Led m m'' r := by
-  obtain ⟨a1, a2⟩ := h1; obtain ⟨b1, b2⟩ := h2
-  exact ⟨by rw [b1, a1], by rw [b2, a2]; simp⟩
-theorem Led.free {m m' : Mem} {r : Bool} (h : Led m m' r) : Led m m'.free r :=
-  ⟨by rw [free_libc]; exact h.1, by rw [free_nrefused]; exact h.2⟩
-theorem Led.check {m m' : Mem} {r : Bool} (h : Led m m' r) (b : Bool) : Led m (m'.check b) r :=
-  ⟨by rw [Mem.check_libc]; exact h.1, by rw [check_nrefused]; exact h.2⟩
-theorem Led.alloc (m : Mem) : Led m m.alloc.2 (!m.alloc.1) := by
-  obtain ⟨a1, a2⟩ := alloc_led m
-  refine ⟨a1, ?_⟩
-  rw [a2]; cases m.alloc.1 <;> rfl
+/-- ledger effect of a call made by a container whose triple is `t`: its own block counter grew by
+`k`, the other allocator's counters are untouched (C14), and the refusal counter advanced by one iff
+`r` (C08 `refused_iff`) — which never happens on the C-library triple -/
+def Led (t : Triple) (m m' : Mem) (k : Nat) (r : Bool) : Prop :=
+  own t m' = own t m + k ∧ Foreign t m m' ∧ m'.nrefused = m.nrefused + (if r then 1 else 0) ∧
+  (t = .libc → r = false)
+
+theorem Led.rfl' (t : Triple) (m : Mem) : Led t m m 0 false :=
+  ⟨rfl, by cases t <;> exact ⟨rfl, rfl, rfl, rfl⟩, by simp, fun _ => rfl⟩
+
+theorem Led.trans {t : Triple} {m m' m'' : Mem} {k k' : Nat} {r : Bool} (h1 : Led t m m' k false)
+    (h2 : Led t m' m'' k' r) : Led t m m'' (k + k') r := by
+  obtain ⟨a1, a2, a3, _⟩ := h1; obtain ⟨b1, b2, b3, b4⟩ := h2
+  refine ⟨by omega, ?_, by simp at a3; omega, b4⟩
+  cases t with
+  | conf => obtain ⟨x1, x2, x3, x4⟩ := a2; obtain ⟨y1, y2, y3, y4⟩ := b2
+            exact ⟨by rw [y1, x1], by rw [y2, x2], by rw [y3, x3], by rw [y4, x4]⟩
+  | libc => obtain ⟨x1, x2, x3, x4⟩ := a2; obtain ⟨y1, y2, y3, y4⟩ := b2
+            exact ⟨by rw [y1, x1], by rw [y2, x2], by rw [y3, x3], by rw [y4, x4]⟩
+
+theorem Led.trans0 {t : Triple} {m m' m'' : Mem} {k : Nat} {r : Bool} (h1 : Led t m m' 0 false)
+    (h2 : Led t m' m'' k r) : Led t m m'' k r := by
+  have := h1.trans h2; simpa using this
+
+theorem Led.check {t : Triple} {m m' : Mem} {k : Nat} {r : Bool} (h : Led t m m' k r) (b : Bool) :
+    Led t m (m'.check b) k r := by
+  obtain ⟨a1, a2, a3, a4⟩ := h
+  refine ⟨by rw [own_check]; exact a1, ?_, by cases b <;> exact a3, a4⟩
+  cases t <;> cases b <;> exact a2
+
+theorem Led.allocT_ok (m : Mem) (t : Triple) (h : (m.allocT t).1 = true) : Led t m (m.allocT t).2 1 false := by
+  refine ⟨own_allocT_ok m t h, ?_, ?_, fun _ => rfl⟩
+  · cases t with
+    | conf => simp only [Mem.allocT_conf] at h ⊢; unfold Mem.alloc at h ⊢; split <;> simp_all [Foreign]
+    | libc => exact ⟨rfl, rfl, rfl, rfl⟩
+  · cases t with
+    | conf => simp only [Mem.allocT_conf] at h ⊢; unfold Mem.alloc at h ⊢; split <;> simp_all
+    | libc => rfl
+
+theorem Led.allocT_refused (m : Mem) (t : Triple) (h : (m.allocT t).1 = false) : Led t m (m.allocT t).2 0 true := by
+  cases t with
+  | conf =>
+    refine ⟨own_allocT_refused m .conf h, ?_, ?_, fun h' => by cases h'⟩
+    · simp only [Mem.allocT_conf] at h ⊢; unfold Mem.alloc at h ⊢; split <;> simp_all [Foreign]
+    · simp only [Mem.allocT_conf] at h ⊢; unfold Mem.alloc at h ⊢; split <;> simp_all
+  | libc => simp [Mem.allocT] at h
+
+theorem Led.freeT {t : Triple} {m m' : Mem} {k : Nat} {r : Bool} (h : Led t m m' (k + 1) r) :
+    Led t m (m'.freeT t) k r := by
+  obtain ⟨a1, a2, a3, a4⟩ := h
+  have hf := freeT_live m' t (by omega)
+  refine ⟨by rw [hf.2.2]; omega, ?_, ?_, a4⟩
+  · cases t with
+    | conf =>
+      obtain ⟨x1, x2, x3, x4⟩ := a2
+      simp only [Mem.freeT_conf]; unfold Mem.free; split <;> exact ⟨x1, x2, x3, x4⟩
+    | libc =>
+      obtain ⟨x1, x2, x3, x4⟩ := a2
+      simp only [Mem.freeT]; split <;> exact ⟨x1, x2, x3, x4⟩
+  · cases t with
+    | conf => simp only [Mem.freeT_conf]; unfold Mem.free; split <;> exact a3
+    | libc => simp only [Mem.freeT]; split <;> exact a3
+
+theorem Led.nrefused_iff {t : Triple} {m m' : Mem} {k : Nat} {st : Stat} (l : Led t m m' k (decide (st = .errAlloc))) :
+    (st = .errAlloc ↔ m'.nrefused = m.nrefused + 1) ∧ (st ≠ .errAlloc → m'.nrefused = m.nrefused) := by
+  by_cases h : st = .errAlloc
+  · have := l.2.2.1; simp only [h, decide_true, if_true] at this
+    exact ⟨⟨fun _ => this, fun _ => h⟩, fun hn => absurd h hn⟩
+  · have := l.2.2.1; simp only [h, decide_false] at this
+    exact ⟨⟨fun hh => absurd hh h, fun hh => by simp at this; omega⟩, fun _ => by simpa using this⟩
+
+/-- on the C-library triple no call is ever refused -/
+theorem Led.libc_never_refused {m m' : Mem} {k : Nat} {st : Stat} (l : Led .libc m m' k (decide (st = .errAlloc))) :
+    st ≠ .errAlloc := by
+  have := l.2.2.2 rfl; simpa using this
 
 /-! ### allocating operations -/
 
 theorem expandCapacity_led (a : Arr) (m : Mem) :
-    Led m (a.expandCapacity m).2.2 (decide ((a.expandCapacity m).1 = .errAlloc)) := by
+    Led a.triple m (a.expandCapacity m).2.2 0 (decide ((a.expandCapacity m).1 = .errAlloc)) := by
   by_cases hmax : a.AtLimit
-  · rw [expandCapacity_max a m hmax]; exact Led.rfl' m
-  · cases hal : m.alloc.1
+  · rw [expandCapacity_max a m hmax]; exact Led.rfl' _ m
+  · cases hal : (m.allocT a.triple).1
     · rw [expandCapacity_refused a m hmax hal]
-      have := Led.alloc m; rw [hal] at this; exact this
+      simpa using Led.allocT_refused m a.triple hal
     · rw [expandCapacity_success a m hmax hal]
-      have := Led.alloc m; rw [hal] at this
-      exact (this.check _).free
+      simpa using ((Led.allocT_ok m a.triple hal).check _).freeT
 
 theorem expandCapacity_indep (a : Arr) (m1 m2 : Mem) (h : m1.sched = m2.sched) :
     (a.expandCapacity m1).1 = (a.expandCapacity m2).1 ∧ (a.expandCapacity m1).2.1 = (a.expandCapacity m2).2.1 ∧
     (a.expandCapacity m1).2.2.sched = (a.expandCapacity m2).2.2.sched := by
-  obtain ⟨e1, e2⟩ := alloc_congr h
+  obtain ⟨e1, e2⟩ := allocT_congr h a.triple
   unfold expandCapacity
   simp only [e1]
   split
@@ -67,14 +139,17 @@ theorem expandCapacity_indep (a : Arr) (m1 m2 : Mem) (h : m1.sched = m2.sched) :
     · exact ⟨rfl, rfl, h⟩
     · split
       · exact ⟨rfl, rfl, e2⟩
-      · exact ⟨rfl, rfl, by simp only [free_sched, Mem.check_sched, e2]⟩
+      · exact ⟨rfl, rfl, by simp only [freeT_sched, Mem.check_sched, e2]⟩
 
-theorem store_led (a : Arr) (x : Nat) (m : Mem) : Led m (a.store x m).2.2 false := (Led.rfl' m).check _
-theorem insertShift_led (a : Arr) (x i : Nat) (m : Mem) : Led m (a.insertShift x i m).2.2 false :=
-  ((Led.rfl' m).check _).check _
 
-theorem add_led (a : Arr) (x : Nat) (m : Mem) : Led m (a.add x m).2.2 (decide ((a.add x m).1 = .errAlloc)) := by
+theorem store_led (a : Arr) (x : Nat) (m : Mem) : Led a.triple m (a.store x m).2.2 0 false := (Led.rfl' _ m).check _
+theorem insertShift_led (a : Arr) (x i : Nat) (m : Mem) : Led a.triple m (a.insertShift x i m).2.2 0 false :=
+  ((Led.rfl' _ m).check _).check _
+
+theorem add_led (a : Arr) (x : Nat) (m : Mem) :
+    Led a.triple m (a.add x m).2.2 0 (decide ((a.add x m).1 = .errAlloc)) := by
   have he := expandCapacity_led a m
+  have ht := expandCapacity_triple a m
   unfold add
   split
   · simp only
@@ -82,8 +157,10 @@ theorem add_led (a : Arr) (x : Nat) (m : Mem) : Led m (a.add x m).2.2 (decide ((
     · exact he
     · rename_i hok
       have hok' : (a.expandCapacity m).1 = .ok := by simpa using hok
-      have h1 : Led m (a.expandCapacity m).2.2 false := by rw [hok'] at he; exact he
-      exact h1.trans (store_led _ x _)
+      have h1 : Led a.triple m (a.expandCapacity m).2.2 0 false := by rw [hok'] at he; exact he
+      have h2 := store_led (a.expandCapacity m).2.1 x (a.expandCapacity m).2.2
+      rw [ht] at h2
+      exact h1.trans0 h2
   · exact store_led a x m
 
 theorem add_indep (a : Arr) (x : Nat) (m1 m2 : Mem) (h : m1.sched = m2.sched) :
@@ -98,22 +175,26 @@ theorem add_indep (a : Arr) (x : Nat) (m1 m2 : Mem) (h : m1.sched = m2.sched) :
     · exact ⟨rfl, rfl, by simp only [store, Mem.check_sched]; exact e3⟩
   · exact ⟨rfl, rfl, by simp only [store, Mem.check_sched]; exact h⟩
 
+
 theorem addAt_led (a : Arr) (x i : Nat) (m : Mem) :
-    Led m (a.addAt x i m).2.2 (decide ((a.addAt x i m).1 = .errAlloc)) := by
+    Led a.triple m (a.addAt x i m).2.2 0 (decide ((a.addAt x i m).1 = .errAlloc)) := by
   have he := expandCapacity_led a m
+  have ht := expandCapacity_triple a m
   unfold addAt
   split
   · exact add_led a x m
   · split
-    · exact Led.rfl' m
+    · exact Led.rfl' _ m
     · split
       · simp only
         split
         · exact he
         · rename_i hok
           have hok' : (a.expandCapacity m).1 = .ok := by simpa using hok
-          have h1 : Led m (a.expandCapacity m).2.2 false := by rw [hok'] at he; exact he
-          exact h1.trans (insertShift_led _ x i _)
+          have h1 : Led a.triple m (a.expandCapacity m).2.2 0 false := by rw [hok'] at he; exact he
+          have h2 := insertShift_led (a.expandCapacity m).2.1 x i (a.expandCapacity m).2.2
+          rw [ht] at h2
+          exact h1.trans0 h2
       · exact insertShift_led a x i m
 
 theorem addAt_indep (a : Arr) (x i : Nat) (m1 m2 : Mem) (h : m1.sched = m2.sched) :
@@ -132,24 +213,24 @@ theorem addAt_indep (a : Arr) (x i : Nat) (m1 m2 : Mem) (h : m1.sched = m2.sched
         · exact ⟨rfl, rfl, by simp only [insertShift, Mem.check_sched]; exact e3⟩
       · exact ⟨rfl, rfl, by simp only [insertShift, Mem.check_sched]; exact h⟩
 
+
 theorem trimCapacity_led (a : Arr) (m : Mem) :
-    Led m (a.trimCapacity m).2.2 (decide ((a.trimCapacity m).1 = .errAlloc)) := by
+    Led a.triple m (a.trimCapacity m).2.2 0 (decide ((a.trimCapacity m).1 = .errAlloc)) := by
   unfold trimCapacity
   by_cases h1 : a.size = a.capacity
-  · simp only [if_pos h1]; exact Led.rfl' m
+  · simp only [if_pos h1]; exact Led.rfl' _ m
   · simp only [if_neg h1]
     by_cases h2 : (if a.size < 1 then 1 else a.size) = a.capacity
-    · simp only [if_pos h2]; exact Led.rfl' m
+    · simp only [if_pos h2]; exact Led.rfl' _ m
     · simp only [if_neg h2]
-      cases hal : m.alloc.1
-      · have := Led.alloc m; rw [hal] at this; simpa using this
-      · have := Led.alloc m; rw [hal] at this
-        simpa using (this.check _).free
+      cases hal : (m.allocT a.triple).1
+      · simpa using Led.allocT_refused m a.triple hal
+      · simpa using ((Led.allocT_ok m a.triple hal).check _).freeT
 
 theorem trimCapacity_indep (a : Arr) (m1 m2 : Mem) (h : m1.sched = m2.sched) :
     (a.trimCapacity m1).1 = (a.trimCapacity m2).1 ∧ (a.trimCapacity m1).2.1 = (a.trimCapacity m2).2.1 ∧
     (a.trimCapacity m1).2.2.sched = (a.trimCapacity m2).2.2.sched := by
-  obtain ⟨e1, e2⟩ := alloc_congr h
+  obtain ⟨e1, e2⟩ := allocT_congr h a.triple
   unfold trimCapacity
   by_cases h1 : a.size = a.capacity
   · simp only [if_pos h1]; exact ⟨by triv, by triv, h⟩
@@ -159,59 +240,54 @@ theorem trimCapacity_indep (a : Arr) (m1 m2 : Mem) (h : m1.sched = m2.sched) :
     · simp only [if_neg h2, e1]
       split
       · exact ⟨rfl, rfl, e2⟩
-      · exact ⟨rfl, rfl, by simp only [free_sched, Mem.check_sched, e2]⟩
+      · exact ⟨rfl, rfl, by simp only [freeT_sched, Mem.check_sched, e2]⟩
 
-/-- the allocation pair of constructor and builders: a refusal of either request is the only way
-to fail, and exactly one refusal is counted then -/
-theorem alloc2_led (m : Mem) : Led m (alloc2 m).2 (!(alloc2 m).1) := by
-  cases h1 : m.alloc.1
-  · have := Led.alloc m; rw [h1] at this
-    simpa [alloc2, h1] using this
-  · have l1 := Led.alloc m; rw [h1] at l1
-    cases h2 : m.alloc.2.alloc.1
-    · have l2 := Led.alloc m.alloc.2; rw [h2] at l2
-      simpa [alloc2, h1, h2] using (l1.trans l2).free
-    · have l2 := Led.alloc m.alloc.2; rw [h2] at l2
+
+/-- the allocation pair of constructor and builders: both blocks or none; a refusal of either request
+is the only way to fail, and exactly one refusal is counted then -/
+theorem alloc2_led (m : Mem) (t : Triple) :
+    Led t m (alloc2 m t).2 (if (alloc2 m t).1 then 2 else 0) (!(alloc2 m t).1) := by
+  cases h1 : (m.allocT t).1
+  · simpa [alloc2, h1] using Led.allocT_refused m t h1
+  · have l1 := Led.allocT_ok m t h1
+    cases h2 : ((m.allocT t).2.allocT t).1
+    · have l2 := Led.allocT_refused (m.allocT t).2 t h2
+      have := (l1.trans l2).freeT (k := 0)
+      simpa [alloc2, h1, h2] using this
+    · have l2 := Led.allocT_ok (m.allocT t).2 t h2
       simpa [alloc2, h1, h2] using l1.trans l2
 
-theorem alloc2_indep (m1 m2 : Mem) (h : m1.sched = m2.sched) :
-    (alloc2 m1).1 = (alloc2 m2).1 ∧ (alloc2 m1).2.sched = (alloc2 m2).2.sched := by
-  obtain ⟨e1, e2⟩ := alloc_congr h
-  obtain ⟨f1, f2⟩ := alloc_congr e2
+theorem alloc2_indep (m1 m2 : Mem) (t : Triple) (h : m1.sched = m2.sched) :
+    (alloc2 m1 t).1 = (alloc2 m2 t).1 ∧ (alloc2 m1 t).2.sched = (alloc2 m2 t).2.sched := by
+  obtain ⟨e1, e2⟩ := allocT_congr h t
+  obtain ⟨f1, f2⟩ := allocT_congr e2 t
   unfold alloc2
   simp only [e1, f1]
   split
   · exact ⟨rfl, e2⟩
   · split
-    · exact ⟨rfl, by simp only [free_sched]; exact f2⟩
+    · exact ⟨rfl, by simp only [freeT_sched]; exact f2⟩
     · exact ⟨rfl, f2⟩
 
-theorem new_led (cap : Nat) (grow : Nat → Nat) (exGe : Nat → Bool) (m : Mem) :
-    Led m (Arr.new cap grow exGe m).2.2 (decide ((Arr.new cap grow exGe m).1 = .errAlloc)) := by
-  have h2 := alloc2_led m
-  unfold alloc2 at h2
-  unfold Arr.new
-  split
-  · exact Led.rfl' m
-  · split
-    · exact Led.rfl' m
-    · split
-      · exact Led.rfl' m
-      · simp only at h2 ⊢
-        split
-        · rename_i h; simp only [h, if_true] at h2; simpa using h2
-        · rename_i h
-          simp only [h] at h2
-          split
-          · rename_i h'; simp only [h', if_true] at h2; simpa using h2
-          · rename_i h'; simp only [h'] at h2; simpa using h2
 
-theorem new_indep (cap : Nat) (grow : Nat → Nat) (exGe : Nat → Bool) (m1 m2 : Mem) (h : m1.sched = m2.sched) :
-    (Arr.new cap grow exGe m1).1 = (Arr.new cap grow exGe m2).1 ∧
-    (Arr.new cap grow exGe m1).2.1 = (Arr.new cap grow exGe m2).2.1 ∧
-    (Arr.new cap grow exGe m1).2.2.sched = (Arr.new cap grow exGe m2).2.2.sched := by
-  obtain ⟨e1, e2⟩ := alloc_congr h
-  obtain ⟨f1, f2⟩ := alloc_congr e2
+/-- shape of a builder's result in terms of its allocation pair -/
+theorem led_of_alloc2 {t : Triple} {m m' : Mem} {st : Stat}
+    (h2 : Led t m (alloc2 m t).2 (if (alloc2 m t).1 then 2 else 0) (!(alloc2 m t).1))
+    (hok : (alloc2 m t).1 = true → st = .ok ∧ ∃ b, m' = (alloc2 m t).2.check b)
+    (hno : (alloc2 m t).1 = false → st = .errAlloc ∧ m' = (alloc2 m t).2) :
+    Led t m m' (if st = .ok then 2 else 0) (decide (st = .errAlloc)) := by
+  cases h : (alloc2 m t).1
+  · obtain ⟨e1, e2⟩ := hno h
+    rw [h] at h2; subst e1; subst e2; simpa using h2
+  · obtain ⟨e1, b, e2⟩ := hok h
+    rw [h] at h2; subst e1; subst e2; simpa using h2.check b
+
+theorem new_indep (cap : Nat) (grow : Nat → Nat) (exGe : Nat → Bool) (m1 m2 : Mem) (t : Triple) (h : m1.sched = m2.sched) :
+    (Arr.new cap grow exGe m1 t).1 = (Arr.new cap grow exGe m2 t).1 ∧
+    (Arr.new cap grow exGe m1 t).2.1 = (Arr.new cap grow exGe m2 t).2.1 ∧
+    (Arr.new cap grow exGe m1 t).2.2.sched = (Arr.new cap grow exGe m2 t).2.2.sched := by
+  obtain ⟨e1, e2⟩ := allocT_congr h t
+  obtain ⟨f1, f2⟩ := allocT_congr e2 t
   unfold Arr.new
   simp only [e1, f1]
   split
@@ -223,30 +299,52 @@ theorem new_indep (cap : Nat) (grow : Nat → Nat) (exGe : Nat → Bool) (m1 m2 
       · split
         · exact ⟨rfl, rfl, e2⟩
         · split
-          · exact ⟨rfl, rfl, by simp only [free_sched]; exact f2⟩
+          · exact ⟨rfl, rfl, by simp only [freeT_sched]; exact f2⟩
           · exact ⟨rfl, rfl, f2⟩
 
-theorem destroy_led (a : Arr) (m : Mem) : Led m (a.destroy m) false := ((Led.rfl' m).free).free
+
+theorem new_led (cap : Nat) (grow : Nat → Nat) (exGe : Nat → Bool) (m : Mem) (t : Triple) :
+    Led t m (Arr.new cap grow exGe m t).2.2 (if (Arr.new cap grow exGe m t).1 = .ok then 2 else 0)
+      (decide ((Arr.new cap grow exGe m t).1 = .errAlloc)) := by
+  by_cases hv : cap = 0 ∨ exGe (Gen.CC_MAX_ELEMENTS / cap) = true ∨ cap > Gen.CC_MAX_ELEMENTS / 8
+  · rw [new_invalid_eq cap grow exGe m t hv]; simpa using Led.rfl' t m
+  · have h0 : ¬ cap = 0 := fun h => hv (Or.inl h)
+    have h1 : ¬ exGe (Gen.CC_MAX_ELEMENTS / cap) = true := fun h => hv (Or.inr (Or.inl h))
+    have h8 : ¬ cap > Gen.CC_MAX_ELEMENTS / 8 := fun h => hv (Or.inr (Or.inr h))
+    rw [new_eq cap grow exGe m t h0 h1 h8]
+    have l := alloc2_led m t
+    cases h : (alloc2 m t).1
+    · rw [h] at l; simpa using l
+    · rw [h] at l; simpa using l
+
+/-- `cc_array_destroy`: both releases go through the array's own triple -/
+theorem destroy_foreign (a : Arr) (m : Mem) : Foreign a.triple m (a.destroy m) := by
+  unfold destroy
+  have f1 : ∀ (t : Triple) (m : Mem), Foreign t m (m.freeT t) := by
+    intro t m
+    cases t with
+    | conf => simp only [Mem.freeT_conf, Foreign]; unfold Mem.free; split <;> exact ⟨rfl, rfl, rfl, rfl⟩
+    | libc => simp only [Mem.freeT, Foreign]; split <;> exact ⟨rfl, rfl, rfl, rfl⟩
+  exact (f1 _ m).trans (f1 _ _)
+
 theorem destroy_sched (a : Arr) (m : Mem) : (a.destroy m).sched = m.sched := by
-  unfold destroy; rw [free_sched, free_sched]
+  unfold destroy; rw [freeT_sched, freeT_sched]
 
 theorem subarray_led (a : Arr) (b e : Nat) (m : Mem) :
-    Led m (a.subarray b e m).2.2 (decide ((a.subarray b e m).1 = .errAlloc)) := by
-  have h2 := alloc2_led m
+    Led a.triple m (a.subarray b e m).2.2 (if (a.subarray b e m).1 = .ok then 2 else 0)
+      (decide ((a.subarray b e m).1 = .errAlloc)) := by
   unfold subarray
   split
-  · exact Led.rfl' m
+  · simpa using Led.rfl' a.triple m
   · simp only
-    split
-    · rename_i h; have h' : (alloc2 m).1 = false := by simpa using h
-      rw [h'] at h2; simpa using h2
-    · rename_i h; have h' : (alloc2 m).1 = true := by simpa using h
-      rw [h'] at h2; simpa using h2.check _
+    refine led_of_alloc2 (alloc2_led m a.triple) (fun h => ?_) (fun h => ?_)
+    · simp only [h, Bool.not_true, Bool.false_eq_true, if_false]; exact ⟨by triv, _, rfl⟩
+    · simp [h]
 
 theorem subarray_indep (a : Arr) (b e : Nat) (m1 m2 : Mem) (h : m1.sched = m2.sched) :
     (a.subarray b e m1).1 = (a.subarray b e m2).1 ∧ (a.subarray b e m1).2.1 = (a.subarray b e m2).2.1 ∧
     (a.subarray b e m1).2.2.sched = (a.subarray b e m2).2.2.sched := by
-  obtain ⟨e1, e2⟩ := alloc2_indep m1 m2 h
+  obtain ⟨e1, e2⟩ := alloc2_indep m1 m2 a.triple h
   unfold subarray
   simp only [e1]
   split
@@ -255,67 +353,64 @@ theorem subarray_indep (a : Arr) (b e : Nat) (m1 m2 : Mem) (h : m1.sched = m2.sc
     · exact ⟨rfl, rfl, e2⟩
     · exact ⟨rfl, rfl, by simp only [Mem.check_sched]; exact e2⟩
 
+
 theorem copyShallow_led (a : Arr) (m : Mem) :
-    Led m (a.copyShallow m).2.2 (decide ((a.copyShallow m).1 = .errAlloc)) := by
-  have h2 := alloc2_led m
+    Led a.triple m (a.copyShallow m).2.2 (if (a.copyShallow m).1 = .ok then 2 else 0)
+      (decide ((a.copyShallow m).1 = .errAlloc)) := by
   unfold copyShallow
   simp only
-  split
-  · rename_i h; have h' : (alloc2 m).1 = false := by simpa using h
-    rw [h'] at h2; simpa using h2
-  · rename_i h; have h' : (alloc2 m).1 = true := by simpa using h
-    rw [h'] at h2; simpa using h2.check _
+  refine led_of_alloc2 (alloc2_led m a.triple) (fun h => ?_) (fun h => ?_)
+  · simp only [h, Bool.not_true, Bool.false_eq_true, if_false]; exact ⟨by triv, _, rfl⟩
+  · simp [h]
 
 theorem copyShallow_indep (a : Arr) (m1 m2 : Mem) (h : m1.sched = m2.sched) :
     (a.copyShallow m1).1 = (a.copyShallow m2).1 ∧ (a.copyShallow m1).2.1 = (a.copyShallow m2).2.1 ∧
     (a.copyShallow m1).2.2.sched = (a.copyShallow m2).2.2.sched := by
-  obtain ⟨e1, e2⟩ := alloc2_indep m1 m2 h
+  obtain ⟨e1, e2⟩ := alloc2_indep m1 m2 a.triple h
   unfold copyShallow
   simp only [e1]
   split
   · exact ⟨rfl, rfl, e2⟩
   · exact ⟨rfl, rfl, by simp only [Mem.check_sched]; exact e2⟩
 
+
 theorem copyDeep_led (cp : Nat → Nat) (a : Arr) (m : Mem) :
-    Led m (a.copyDeep cp m).2.2.2 (decide ((a.copyDeep cp m).1 = .errAlloc)) := by
-  have h2 := alloc2_led m
+    Led a.triple m (a.copyDeep cp m).2.2.2 (if (a.copyDeep cp m).1 = .ok then 2 else 0)
+      (decide ((a.copyDeep cp m).1 = .errAlloc)) := by
   unfold copyDeep
   simp only
-  split
-  · rename_i h; have h' : (alloc2 m).1 = false := by simpa using h
-    rw [h'] at h2; simpa using h2
-  · rename_i h; have h' : (alloc2 m).1 = true := by simpa using h
-    rw [h'] at h2; simpa using h2.check _
+  refine led_of_alloc2 (alloc2_led m a.triple) (fun h => ?_) (fun h => ?_)
+  · simp only [h, Bool.not_true, Bool.false_eq_true, if_false]; exact ⟨by triv, _, rfl⟩
+  · simp [h]
 
 theorem copyDeep_indep (cp : Nat → Nat) (a : Arr) (m1 m2 : Mem) (h : m1.sched = m2.sched) :
     (a.copyDeep cp m1).1 = (a.copyDeep cp m2).1 ∧ (a.copyDeep cp m1).2.1 = (a.copyDeep cp m2).2.1 ∧
     (a.copyDeep cp m1).2.2.1 = (a.copyDeep cp m2).2.2.1 ∧
     (a.copyDeep cp m1).2.2.2.sched = (a.copyDeep cp m2).2.2.2.sched := by
-  obtain ⟨e1, e2⟩ := alloc2_indep m1 m2 h
+  obtain ⟨e1, e2⟩ := alloc2_indep m1 m2 a.triple h
   unfold copyDeep
   simp only [e1]
   split
   · exact ⟨rfl, rfl, rfl, e2⟩
   · exact ⟨rfl, rfl, rfl, by simp only [Mem.check_sched]; exact e2⟩
 
+
 theorem filter_led (p : Nat → Bool) (a : Arr) (m : Mem) :
-    Led m (a.filter p m).2.2.2 (decide ((a.filter p m).1 = .errAlloc)) := by
-  have h2 := alloc2_led m
+    Led a.triple m (a.filter p m).2.2.2 (if (a.filter p m).1 = .ok then 2 else 0)
+      (decide ((a.filter p m).1 = .errAlloc)) := by
   unfold filter
   split
-  · exact Led.rfl' m
+  · simpa using Led.rfl' a.triple m
   · simp only
-    split
-    · rename_i h; have h' : (alloc2 m).1 = false := by simpa using h
-      rw [h'] at h2; simpa using h2
-    · rename_i h; have h' : (alloc2 m).1 = true := by simpa using h
-      rw [h'] at h2; simpa using h2.check _
+    refine led_of_alloc2 (alloc2_led m a.triple) (fun h => ?_) (fun h => ?_)
+    · simp only [h, Bool.not_true, Bool.false_eq_true, if_false]; exact ⟨by triv, _, rfl⟩
+    · simp [h]
 
 theorem filter_indep (p : Nat → Bool) (a : Arr) (m1 m2 : Mem) (h : m1.sched = m2.sched) :
     (a.filter p m1).1 = (a.filter p m2).1 ∧ (a.filter p m1).2.1 = (a.filter p m2).2.1 ∧
     (a.filter p m1).2.2.1 = (a.filter p m2).2.2.1 ∧
     (a.filter p m1).2.2.2.sched = (a.filter p m2).2.2.2.sched := by
-  obtain ⟨e1, e2⟩ := alloc2_indep m1 m2 h
+  obtain ⟨e1, e2⟩ := alloc2_indep m1 m2 a.triple h
   unfold filter
   simp only [e1]
   split
@@ -324,10 +419,11 @@ theorem filter_indep (p : Nat → Bool) (a : Arr) (m1 m2 : Mem) (h : m1.sched = 
     · exact ⟨rfl, rfl, rfl, e2⟩
     · exact ⟨rfl, rfl, rfl, by simp only [Mem.check_sched]; exact e2⟩
 
+
 /-! ### iterator insertions -/
 
 theorem iterAdd_led (a : Arr) (it : ArrIter) (x : Nat) (m : Mem) :
-    Led m (a.iterAdd it x m).2.2.2 (decide ((a.iterAdd it x m).1 = .errAlloc)) := by
+    Led a.triple m (a.iterAdd it x m).2.2.2 0 (decide ((a.iterAdd it x m).1 = .errAlloc)) := by
   have := addAt_led a x it.index m
   unfold iterAdd
   simp only
@@ -342,12 +438,13 @@ theorem iterAdd_indep (a : Arr) (it : ArrIter) (x : Nat) (m1 m2 : Mem) (h : m1.s
   simp only [e1, e2]
   split <;> exact ⟨rfl, rfl, rfl, e3⟩
 
+
 theorem ensureRoom_led (a : Arr) (m : Mem) :
-    Led m (ensureRoom a m).2.2 (decide ((ensureRoom a m).1 = .errAlloc)) := by
+    Led a.triple m (ensureRoom a m).2.2 0 (decide ((ensureRoom a m).1 = .errAlloc)) := by
   unfold ensureRoom
   split
   · exact expandCapacity_led a m
-  · exact Led.rfl' m
+  · exact Led.rfl' _ m
 
 theorem ensureRoom_indep (a : Arr) (m1 m2 : Mem) (h : m1.sched = m2.sched) :
     (ensureRoom a m1).1 = (ensureRoom a m2).1 ∧ (ensureRoom a m1).2.1 = (ensureRoom a m2).2.1 ∧
@@ -357,77 +454,6 @@ theorem ensureRoom_indep (a : Arr) (m1 m2 : Mem) (h : m1.sched = m2.sched) :
   · exact expandCapacity_indep a m1 m2 h
   · exact ⟨rfl, rfl, h⟩
 
-/-- `zip_iter_add`: `libc` untouched; a refusal makes the call report `CC_ERR_ALLOC`, and — unless one
-of the arrays sits at the capacity limit, which this function also reports as `CC_ERR_ALLOC` — the
-converse holds -/
-theorem zipAdd_led (a1 a2 : Arr) (it : ArrIter) (x y : Nat) (m : Mem) (h1 : a1.Inv) (h2 : a2.Inv) (hlive : 0 < m.live) :
-    (zipAdd a1 a2 it x y m).2.2.2.2.libc = m.libc ∧
-    (m.nrefused < (zipAdd a1 a2 it x y m).2.2.2.2.nrefused → (zipAdd a1 a2 it x y m).1 = .errAlloc) ∧
-    ((zipAdd a1 a2 it x y m).1 = .errAlloc → ¬ a1.AtLimit → ¬ a2.AtLimit →
-      (zipAdd a1 a2 it x y m).2.2.2.2.nrefused = m.nrefused + 1) ∧
-    ((zipAdd a1 a2 it x y m).1 ≠ .errAlloc → (zipAdd a1 a2 it x y m).2.2.2.2.nrefused = m.nrefused) := by
-  have l1 := ensureRoom_led a1 m
-  have l2 := ensureRoom_led a2 (ensureRoom a1 m).2.2
-  obtain ⟨r1, rl1, _⟩ := ensureRoom_spec a1 m h1 hlive
-  obtain ⟨r2, _, _⟩ := ensureRoom_spec a2 (ensureRoom a1 m).2.2 h2 (by omega)
-  -- a failing room-making step: either a counted refusal, or the capacity limit
-  have hfail : ∀ (a : Arr) (m : Mem), (ensureRoom a m).1 ≠ .ok →
-      (ensureRoom a m).1 = .errAlloc ∨ a.AtLimit := by
-    intro a m hne
-    unfold ensureRoom at hne ⊢
-    split at hne
-    · rename_i hf
-      simp only [hf, if_true]
-      by_cases hmax : a.AtLimit
-      · exact Or.inr hmax
-      · left
-        cases hal : m.alloc.1
-        · rw [expandCapacity_refused a m hmax hal]
-        · rw [expandCapacity_success a m hmax hal] at hne; simp at hne
-    · exact absurd rfl hne
-  rw [zipAdd_eq]
-  by_cases o1 : (ensureRoom a1 m).1 = .ok
-  · have hl1 : Led m (ensureRoom a1 m).2.2 false := by rw [o1] at l1; exact l1
-    simp only [o1, bne_self_eq_false, Bool.false_eq_true, if_false]
-    by_cases o2 : (ensureRoom a2 (ensureRoom a1 m).2.2).1 = .ok
-    · have hl2 : Led (ensureRoom a1 m).2.2 (ensureRoom a2 (ensureRoom a1 m).2.2).2.2 false := by rw [o2] at l2; exact l2
-      simp only [o2, bne_self_eq_false, Bool.false_eq_true, if_false]
-      rcases r1 with ⟨_, _, _, d1, e1, _⟩ | ⟨n1, _⟩
-      · rcases r2 with ⟨_, _, _, d2, e2, _⟩ | ⟨n2, _⟩
-        · have p := addAt_led (ensureRoom a1 m).2.1 x it.index (ensureRoom a2 (ensureRoom a1 m).2.2).2.2
-          have q := addAt_led (ensureRoom a2 (ensureRoom a1 m).2.2).2.1 y it.index
-            ((ensureRoom a1 m).2.1.addAt x it.index (ensureRoom a2 (ensureRoom a1 m).2.2).2.2).2.2
-          -- with room available neither inner call can report an allocation error
-          have pk : ((ensureRoom a1 m).2.1.addAt x it.index (ensureRoom a2 (ensureRoom a1 m).2.2).2.2).2.2 =
-              (ensureRoom a2 (ensureRoom a1 m).2.2).2.2 := by
-            by_cases hi : it.index ≤ (ensureRoom a1 m).2.1.size
-            · exact (addAt_room _ x it.index _ d1 e1 hi).2.2.2.2
-            · rw [addAt_range _ x it.index _ (by omega)]
-          rw [pk]
-          have qk : ((ensureRoom a2 (ensureRoom a1 m).2.2).2.1.addAt y it.index (ensureRoom a2 (ensureRoom a1 m).2.2).2.2).2.2 =
-              (ensureRoom a2 (ensureRoom a1 m).2.2).2.2 := by
-            by_cases hi : it.index ≤ (ensureRoom a2 (ensureRoom a1 m).2.2).2.1.size
-            · exact (addAt_room _ y it.index _ d2 e2 hi).2.2.2.2
-            · rw [addAt_range _ y it.index _ (by omega)]
-          rw [qk]
-          have hl := hl1.trans hl2
-          refine ⟨hl.1, fun h => ?_, fun h => by simp at h, fun _ => by simpa using hl.2⟩
-          have := hl.2; simp at this; omega
-        · exact absurd o2 n2
-      · exact absurd o1 n1
-    · have hne : ((ensureRoom a2 (ensureRoom a1 m).2.2).1 != .ok) = true := by simpa using o2
-      simp only [hne, if_true]
-      have hl := hl1.trans l2
-      refine ⟨hl.1, fun _ => by triv, fun _ _ hm2 => ?_, fun h => absurd rfl h⟩
-      rcases hfail a2 _ o2 with e | e
-      · have := hl.2; rw [e] at this; simpa using this
-      · exact absurd e hm2
-  · have hne : ((ensureRoom a1 m).1 != .ok) = true := by simpa using o1
-    simp only [hne, if_true]
-    refine ⟨l1.1, fun _ => by triv, fun _ hm1 _ => ?_, fun h => absurd rfl h⟩
-    rcases hfail a1 _ o1 with e | e
-    · have := l1.2; rw [e] at this; simpa using this
-    · exact absurd e hm1
 
 theorem zipAdd_indep (a1 a2 : Arr) (it : ArrIter) (x y : Nat) (m1 m2 : Mem) (h : m1.sched = m2.sched) :
     (zipAdd a1 a2 it x y m1).1 = (zipAdd a1 a2 it x y m2).1 ∧
@@ -446,6 +472,78 @@ theorem zipAdd_indep (a1 a2 : Arr) (it : ArrIter) (x y : Nat) (m1 m2 : Mem) (h :
   · split
     · exact ⟨rfl, rfl, rfl, rfl, f3⟩
     · exact ⟨rfl, g2, k2, rfl, k3⟩
+
+
+/-- `zip_iter_add` on two arrays that share one allocator triple: own counter balanced, the other
+allocator untouched; a refusal makes the call report `CC_ERR_ALLOC`, and — unless one of the arrays
+sits at the capacity limit, which this function also reports as `CC_ERR_ALLOC` — the converse holds -/
+theorem zipAdd_led (a1 a2 : Arr) (it : ArrIter) (x y : Nat) (m : Mem) (h1 : a1.Inv) (h2 : a2.Inv)
+    (ht : a2.triple = a1.triple) :
+    own a1.triple (zipAdd a1 a2 it x y m).2.2.2.2 = own a1.triple m ∧
+    Foreign a1.triple m (zipAdd a1 a2 it x y m).2.2.2.2 ∧
+    (m.nrefused < (zipAdd a1 a2 it x y m).2.2.2.2.nrefused → (zipAdd a1 a2 it x y m).1 = .errAlloc) ∧
+    ((zipAdd a1 a2 it x y m).1 = .errAlloc → ¬ a1.AtLimit → ¬ a2.AtLimit →
+      (zipAdd a1 a2 it x y m).2.2.2.2.nrefused = m.nrefused + 1) ∧
+    ((zipAdd a1 a2 it x y m).1 ≠ .errAlloc → (zipAdd a1 a2 it x y m).2.2.2.2.nrefused = m.nrefused) := by
+  have l1 := ensureRoom_led a1 m
+  have l2 := ensureRoom_led a2 (ensureRoom a1 m).2.2
+  rw [ht] at l2
+  obtain ⟨r1, _, _⟩ := ensureRoom_spec a1 m h1
+  obtain ⟨r2, _, _⟩ := ensureRoom_spec a2 (ensureRoom a1 m).2.2 h2
+  have hfail : ∀ (a : Arr) (m : Mem), (ensureRoom a m).1 ≠ .ok →
+      (ensureRoom a m).1 = .errAlloc ∨ a.AtLimit := by
+    intro a m hne
+    unfold ensureRoom at hne ⊢
+    split at hne
+    · rename_i hf
+      simp only [hf, if_true]
+      by_cases hmax : a.AtLimit
+      · exact Or.inr hmax
+      · left
+        cases hal : (m.allocT a.triple).1
+        · rw [expandCapacity_refused a m hmax hal]
+        · rw [expandCapacity_success a m hmax hal] at hne; simp at hne
+    · exact absurd rfl hne
+  rw [zipAdd_eq]
+  by_cases o1 : (ensureRoom a1 m).1 = .ok
+  · have hl1 : Led a1.triple m (ensureRoom a1 m).2.2 0 false := by rw [o1] at l1; exact l1
+    simp only [o1, bne_self_eq_false, Bool.false_eq_true, if_false]
+    by_cases o2 : (ensureRoom a2 (ensureRoom a1 m).2.2).1 = .ok
+    · have hl2 : Led a1.triple (ensureRoom a1 m).2.2 (ensureRoom a2 (ensureRoom a1 m).2.2).2.2 0 false := by
+        rw [o2] at l2; exact l2
+      simp only [o2, bne_self_eq_false, Bool.false_eq_true, if_false]
+      rcases r1 with ⟨_, _, _, d1, e1, _⟩ | ⟨n1, _⟩
+      · rcases r2 with ⟨_, _, _, d2, e2, _⟩ | ⟨n2, _⟩
+        · have pk : ((ensureRoom a1 m).2.1.addAt x it.index (ensureRoom a2 (ensureRoom a1 m).2.2).2.2).2.2 =
+              (ensureRoom a2 (ensureRoom a1 m).2.2).2.2 := by
+            by_cases hi : it.index ≤ (ensureRoom a1 m).2.1.size
+            · exact (addAt_room _ x it.index _ d1 e1 hi).2.2.2.2
+            · rw [addAt_range _ x it.index _ (by omega)]
+          rw [pk]
+          have qk : ((ensureRoom a2 (ensureRoom a1 m).2.2).2.1.addAt y it.index (ensureRoom a2 (ensureRoom a1 m).2.2).2.2).2.2 =
+              (ensureRoom a2 (ensureRoom a1 m).2.2).2.2 := by
+            by_cases hi : it.index ≤ (ensureRoom a2 (ensureRoom a1 m).2.2).2.1.size
+            · exact (addAt_room _ y it.index _ d2 e2 hi).2.2.2.2
+            · rw [addAt_range _ y it.index _ (by omega)]
+          rw [qk]
+          have hl := hl1.trans0 hl2
+          refine ⟨by simpa using hl.1, hl.2.1, fun h => ?_, fun h => by simp at h, fun _ => by simpa using hl.2.2.1⟩
+          have := hl.2.2.1; simp at this; omega
+        · exact absurd o2 n2
+      · exact absurd o1 n1
+    · have hne : ((ensureRoom a2 (ensureRoom a1 m).2.2).1 != .ok) = true := by simpa using o2
+      simp only [hne, if_true]
+      have hl := hl1.trans0 l2
+      refine ⟨by simpa using hl.1, hl.2.1, fun _ => by triv, fun _ _ hm2 => ?_, fun h => absurd rfl h⟩
+      rcases hfail a2 _ o2 with e | e
+      · have := hl.2.2.1; rw [e] at this; simpa using this
+      · exact absurd e hm2
+  · have hne : ((ensureRoom a1 m).1 != .ok) = true := by simpa using o1
+    simp only [hne, if_true]
+    refine ⟨by simpa using l1.1, l1.2.1, fun _ => by triv, fun _ hm1 _ => ?_, fun h => absurd rfl h⟩
+    rcases hfail a1 _ o1 with e | e
+    · have := l1.2.2.1; rw [e] at this; simpa using this
+    · exact absurd e hm1
 
 /-! ### the calls that never allocate: everything but the ledger is independent of the ledger -/
 
@@ -505,7 +603,7 @@ theorem some_ne_alloc {s : Stat} (h : s ≠ .errAlloc) : decide (some s = some S
 /-- **ledger effect of one call of the C01 vocabulary**: `libc` untouched, and the refusal counter
 advances (by one) exactly when the call reports `CC_ERR_ALLOC` -/
 theorem step_led (cfg : Cfg) (a : Arr) (op : Op) (m : Mem) (hinv : a.Inv) :
-    Led m (a.step cfg op m).2.2 (decide ((a.step cfg op m).1.st = some .errAlloc)) := by
+    Led a.triple m (a.step cfg op m).2.2 0 (decide ((a.step cfg op m).1.st = some .errAlloc)) := by
   have conv : ∀ s : Stat, decide (some s = some Stat.errAlloc) = decide (s = .errAlloc) := by
     intro s; by_cases h : s = .errAlloc <;> simp [h]
   cases op with
@@ -516,62 +614,62 @@ theorem step_led (cfg : Cfg) (a : Arr) (op : Op) (m : Mem) (hinv : a.Inv) :
     obtain ⟨r1, _, _, _, _, r6, _⟩ := replaceAt_spec a x i m hinv
     simp only [step, conv, r6]
     have : (a.replaceAt x i m).1 ≠ .errAlloc := by rw [r1]; unfold Spec.Seq.replaceAt; split <;> simp
-    simp only [this, decide_false]; exact Led.rfl' m
+    simp only [this, decide_false]; exact Led.rfl' _ m
   | swapAt i j =>
     obtain ⟨r1, _, _, _, r5, _⟩ := swapAt_spec a i j m hinv
     simp only [step, conv, r5]
     have : (a.swapAt i j m).1 ≠ .errAlloc := by rw [r1]; unfold Spec.Seq.swapAt; split <;> simp
-    simp only [this, decide_false]; exact Led.rfl' m
+    simp only [this, decide_false]; exact Led.rfl' _ m
   | remove x =>
     obtain ⟨r1, _, _, _, _, r6, _⟩ := remove_spec a x m hinv
     simp only [step, conv, r6]
     have : (a.remove x m).1 ≠ .errAlloc := by rw [r1]; unfold Spec.Seq.remove; split <;> simp
-    simp only [this, decide_false]; exact Led.rfl' m
+    simp only [this, decide_false]; exact Led.rfl' _ m
   | removeAt i =>
     obtain ⟨r1, _, _, _, _, r6, _⟩ := removeAt_spec a i m hinv
     simp only [step, conv, r6]
     have : (a.removeAt i m).1 ≠ .errAlloc := by rw [r1]; unfold Spec.Seq.removeAt; split <;> simp
-    simp only [this, decide_false]; exact Led.rfl' m
+    simp only [this, decide_false]; exact Led.rfl' _ m
   | removeLast =>
     obtain ⟨r1, _, _, _, _, r6, _⟩ := removeLast_spec a m hinv
     simp only [step, conv, r6]
     have : (a.removeLast m).1 ≠ .errAlloc := by rw [r1]; unfold Spec.Seq.removeLast; split <;> simp
-    simp only [this, decide_false]; exact Led.rfl' m
-  | removeAll => simp only [step]; exact Led.rfl' m
+    simp only [this, decide_false]; exact Led.rfl' _ m
+  | removeAll => simp only [step]; exact Led.rfl' _ m
   | removeAllFree =>
     obtain ⟨_, _, _, _, r5⟩ := removeAllFree_spec a m hinv
-    simp only [step, r5]; exact Led.rfl' m
+    simp only [step, r5]; exact Led.rfl' _ m
   | reverse =>
     obtain ⟨_, _, _, r4⟩ := reverse_spec a m hinv
-    simp only [step, r4]; exact Led.rfl' m
+    simp only [step, r4]; exact Led.rfl' _ m
   | filterMut =>
     obtain ⟨r1, _, _, _, r5, _⟩ := filterMut_spec cfg.pred a m hinv
     simp only [step, conv, r5]
     have : (a.filterMut cfg.pred m).1 ≠ .errAlloc := by rw [r1]; unfold Spec.Seq.filterMut; split <;> simp
-    simp only [this, decide_false]; exact Led.rfl' m
+    simp only [this, decide_false]; exact Led.rfl' _ m
   | sort =>
     have h6 : decide (a.size ≤ a.buf.length) = true := by simpa using hinv.size_le_len
-    simp only [step, sort, h6, Mem.check_true]; exact Led.rfl' m
+    simp only [step, sort, h6, Mem.check_true]; exact Led.rfl' _ m
   | getAt i =>
     obtain ⟨r1, _, r3, _⟩ := getAt_spec a i m hinv
     simp only [step, conv, r3]
     have : (a.getAt i m).1 ≠ .errAlloc := by rw [r1]; unfold Spec.Seq.getAt; split <;> simp
-    simp only [this, decide_false]; exact Led.rfl' m
+    simp only [this, decide_false]; exact Led.rfl' _ m
   | getLast =>
     obtain ⟨r1, _, r3, _⟩ := getLast_spec a m hinv
     simp only [step, conv, r3]
     have : (a.getLast m).1 ≠ .errAlloc := by rw [r1]; unfold Spec.Seq.getLast; split <;> simp
-    simp only [this, decide_false]; exact Led.rfl' m
+    simp only [this, decide_false]; exact Led.rfl' _ m
   | indexOf x =>
     obtain ⟨r1, _, r3, _⟩ := indexOf_spec a x m hinv
     simp only [step, conv, r3]
     have : (a.indexOf x m).1 ≠ .errAlloc := by rw [r1]; unfold Spec.Seq.indexOf; split <;> simp
-    simp only [this, decide_false]; exact Led.rfl' m
-  | contains x => simp only [step, (contains_spec a x m hinv).2]; exact Led.rfl' m
-  | containsValue x => simp only [step, (containsValue_spec cfg.cmp a x m hinv).2]; exact Led.rfl' m
-  | size => simp only [step]; exact Led.rfl' m
-  | map => simp only [step, (map_spec a m hinv).2]; exact Led.rfl' m
-  | reduce r0 => simp only [step, (reduce_spec cfg.fn a r0 m hinv).2.2]; exact Led.rfl' m
+    simp only [this, decide_false]; exact Led.rfl' _ m
+  | contains x => simp only [step, (contains_spec a x m hinv).2]; exact Led.rfl' _ m
+  | containsValue x => simp only [step, (containsValue_spec cfg.cmp a x m hinv).2]; exact Led.rfl' _ m
+  | size => simp only [step]; exact Led.rfl' _ m
+  | map => simp only [step, (map_spec a m hinv).2]; exact Led.rfl' _ m
+  | reduce r0 => simp only [step, (reduce_spec cfg.fn a r0 m hinv).2.2]; exact Led.rfl' _ m
 
 /-- **allocator independence of one call**: two ledgers holding the same schedule of refusals give
 the same report, the same resulting state, and again the same schedule -/
@@ -649,38 +747,79 @@ theorem step_indep (cfg : Cfg) (a : Arr) (op : Op) (m1 m2 : Mem) (hinv : a.Inv) 
     have q2 := (reduce_spec cfg.fn a r0 m2 hinv).2.2
     simp only [step, p1, p2]; exact ⟨by triv, by triv, by rw [q1, q2]; exact h⟩
 
-/-- histories: `libc` is never touched, and the number of refusals counted equals the number of
-calls that reported `CC_ERR_ALLOC` -/
-theorem run_led (cfg : Cfg) (ops : List Op) : ∀ (a : Arr) (m : Mem), a.Inv → 0 < m.live →
+theorem addAt_triple (a : Arr) (x i : Nat) (m : Mem) : (a.addAt x i m).2.1.triple = a.triple := by
+  have he := expandCapacity_triple a m
+  unfold addAt
+  split
+  · exact add_triple a x m
+  · split
+    · rfl
+    · split
+      · simp only
+        split
+        · exact he
+        · simp only [insertShift]; exact he
+      · rfl
+
+theorem trimCapacity_triple (a : Arr) (m : Mem) : (a.trimCapacity m).2.1.triple = a.triple := by
+  unfold trimCapacity
+  by_cases h1 : a.size = a.capacity
+  · simp only [if_pos h1]
+  · simp only [if_neg h1]
+    by_cases h2 : (if a.size < 1 then 1 else a.size) = a.capacity
+    · simp only [if_pos h2]
+    · simp only [if_neg h2]
+      split <;> rfl
+
+/-- no call of the C01 vocabulary changes the array's allocator triple -/
+theorem step_triple (cfg : Cfg) (a : Arr) (op : Op) (m : Mem) : (a.step cfg op m).2.1.triple = a.triple := by
+  cases op with
+  | add x => exact add_triple a x m
+  | addAt x i => exact addAt_triple a x i m
+  | trimCapacity => exact trimCapacity_triple a m
+  | replaceAt x i => simp only [step, replaceAt]; split <;> rfl
+  | swapAt i j => simp only [step, swapAt]; split <;> rfl
+  | remove x => simp only [step, remove, closeGap]; split <;> rfl
+  | removeAt i => simp only [step, removeAt, closeGap]; split <;> rfl
+  | removeLast => simp only [step, removeLast, removeAt, closeGap]; split <;> rfl
+  | filterMut => simp only [step, filterMut]; split <;> rfl
+  | reverse => simp only [step, reverse]; split <;> rfl
+  | removeAll | removeAllFree | sort | getAt _ | getLast | indexOf _ | contains _ | containsValue _ | size | map | reduce _ => rfl
+
+/-- histories: the array's own block counter is balanced, the other allocator's counters are never
+touched, and the number of refusals counted equals the number of calls that reported `CC_ERR_ALLOC` -/
+theorem run_led (cfg : Cfg) (ops : List Op) : ∀ (a : Arr) (m : Mem), a.Inv →
     (∀ xs, (cfg.sortFn xs).length = xs.length) →
-    (a.run cfg ops m).2.2.libc = m.libc ∧
-    (a.run cfg ops m).2.2.nrefused = m.nrefused + ((a.run cfg ops m).1.filter (fun o => decide (o.st = some .errAlloc))).length := by
+    own a.triple (a.run cfg ops m).2.2 = own a.triple m ∧ Foreign a.triple m (a.run cfg ops m).2.2 ∧
+    (a.run cfg ops m).2.2.nrefused = m.nrefused + ((a.run cfg ops m).1.filter (fun o => decide (o.st = some .errAlloc))).length ∧
+    (a.run cfg ops m).2.1.triple = a.triple := by
   induction ops with
-  | nil => intro a m _ _ _; exact ⟨rfl, rfl⟩
+  | nil => intro a m _ _; exact ⟨rfl, Foreign.rfl' _ m, rfl, rfl⟩
   | cons op ops ih =>
-    intro a m hinv hlive hsort
-    obtain ⟨_, _, _, s4, s5, _⟩ := step_spec cfg a op m hinv hlive hsort
-    obtain ⟨l1, l2⟩ := step_led cfg a op m hinv
-    obtain ⟨i1, i2⟩ := ih (a.step cfg op m).2.1 (a.step cfg op m).2.2 s4 (by omega) hsort
+    intro a m hinv hsort
+    obtain ⟨_, _, _, s4, _⟩ := step_spec cfg a op m hinv hsort
+    obtain ⟨l1, l2, l3, _⟩ := step_led cfg a op m hinv
+    have ht := step_triple cfg a op m
+    obtain ⟨i1, i2, i3, i4⟩ := ih (a.step cfg op m).2.1 (a.step cfg op m).2.2 s4 hsort
+    rw [ht] at i1 i2 i4
     simp only [Arr.run, List.filter_cons]
-    refine ⟨by rw [i1, l1], ?_⟩
-    rw [i2, l2]
+    refine ⟨by rw [i1, l1]; rfl, l2.trans i2, ?_, i4⟩
+    rw [i3, l3]
     split <;> simp <;> omega
 
-theorem run_indep (cfg : Cfg) (ops : List Op) : ∀ (a : Arr) (m1 m2 : Mem), a.Inv → 0 < m1.live → 0 < m2.live →
+theorem run_indep (cfg : Cfg) (ops : List Op) : ∀ (a : Arr) (m1 m2 : Mem), a.Inv →
     (∀ xs, (cfg.sortFn xs).length = xs.length) → m1.sched = m2.sched →
     (a.run cfg ops m1).1 = (a.run cfg ops m2).1 ∧ (a.run cfg ops m1).2.1 = (a.run cfg ops m2).2.1 ∧
     (a.run cfg ops m1).2.2.sched = (a.run cfg ops m2).2.2.sched := by
   induction ops with
-  | nil => intro a m1 m2 _ _ _ _ h; exact ⟨rfl, rfl, h⟩
+  | nil => intro a m1 m2 _ _ h; exact ⟨rfl, rfl, h⟩
   | cons op ops ih =>
-    intro a m1 m2 hinv hl1 hl2 hsort h
+    intro a m1 m2 hinv hsort h
     obtain ⟨e1, e2, e3⟩ := step_indep cfg a op m1 m2 hinv h
-    obtain ⟨_, _, _, s4, s5, _⟩ := step_spec cfg a op m1 hinv hl1 hsort
-    obtain ⟨_, _, _, _, t5, _⟩ := step_spec cfg a op m2 hinv hl2 hsort
+    obtain ⟨_, _, _, s4, s5, _⟩ := step_spec cfg a op m1 hinv hsort
     simp only [Arr.run]
     rw [e1]
-    have := ih (a.step cfg op m1).2.1 (a.step cfg op m1).2.2 (a.step cfg op m2).2.2 s4 (by omega) (by omega) hsort e3
+    have := ih (a.step cfg op m1).2.1 (a.step cfg op m1).2.2 (a.step cfg op m2).2.2 s4 hsort e3
     rw [e2] at this ⊢
     exact ⟨by rw [this.1], this.2.1, this.2.2⟩
 
@@ -698,26 +837,211 @@ theorem run_append (cfg : Cfg) (ops1 ops2 : List Op) : ∀ (a : Arr) (m : Mem),
 /-- iterator programs: ledger effect and allocator independence of one iterator call -/
 theorem iterStep_led (a : Arr) (it : ArrIter) (op : IterOp) (m : Mem) (hinv : a.Inv) (c : Spec.Seq.Cursor)
     (hs : Sim a it c) :
-    Led m (a.iterStep it op m).2.2.2 (decide ((a.iterStep it op m).1.st = some .errAlloc)) := by
+    Led a.triple m (a.iterStep it op m).2.2.2 0 (decide ((a.iterStep it op m).1.st = some .errAlloc)) := by
   cases op with
   | next =>
     obtain ⟨r1, _, _, r4⟩ := iterNext_sim a it c m hinv hs
     have : (a.iterNext it m).1 ≠ .errAlloc := by
       rw [r1]; unfold Spec.Seq.Cursor.next; split <;> simp
-    simp only [iterStep, r4]; simp [this]; exact Led.rfl' m
+    simp only [iterStep, r4]; simp [this]; exact Led.rfl' _ m
   | remove =>
     obtain ⟨r1, _, _, _, _, r6, _⟩ := iterRemove_sim a it c m hinv hs
     have : (a.iterRemove it m).1 ≠ .errAlloc := by
       rw [r1]; unfold Spec.Seq.Cursor.remove; split
       · simp
       · split <;> simp
-    simp only [iterStep, r6]; simp [this]; exact Led.rfl' m
+    simp only [iterStep, r6]; simp [this]; exact Led.rfl' _ m
   | add x => have := iterAdd_led a it x m; simpa [iterStep] using this
   | replace x =>
     obtain ⟨r1, _, _, _, _, r6, _⟩ := iterReplace_sim a it c x m hinv hs
     have : (a.iterReplace it x m).1 ≠ .errAlloc := by
       rw [r1]; unfold Spec.Seq.Cursor.replace; split <;> simp
-    simp only [iterStep, r6]; simp [this]; exact Led.rfl' m
-  | index => simp only [iterStep]; exact Led.rfl' m
+    simp only [iterStep, r6]; simp [this]; exact Led.rfl' _ m
+  | index => simp only [iterStep]; exact Led.rfl' _ m
+
+/-! ### when a call may be blocked, and histories on an allocator that never refuses -/
+
+/-- a call of the C01 vocabulary reports `CC_ERR_ALLOC` only when the allocator refused the request,
+and `CC_ERR_MAX_CAPACITY` only at the capacity limit -/
+theorem step_blocked (cfg : Cfg) (a : Arr) (op : Op) (m : Mem) (hinv : a.Inv) :
+    ((a.step cfg op m).1.blocked = some .errAlloc → (m.allocT a.triple).1 = false) ∧
+    ((a.step cfg op m).1.blocked = some .errMaxCapacity → a.AtLimit ∧ a.size = a.capacity) := by
+  have key : ∀ st : Stat, st ≠ .errAlloc → st ≠ .errMaxCapacity →
+      ∀ v l, (({ st := some st, val := v, log := l } : Out).blocked = some .errAlloc → False) ∧
+             (({ st := some st, val := v, log := l } : Out).blocked = some .errMaxCapacity → False) := by
+    intro st h1 h2 v l
+    simp [Out.blocked, h1, h2]
+  have none_key : ∀ v l, (({ st := none, val := v, log := l } : Out).blocked = some .errAlloc → False) ∧
+      (({ st := none, val := v, log := l } : Out).blocked = some .errMaxCapacity → False) := by
+    intro v l; simp [Out.blocked]
+  cases op with
+  | add x =>
+    simp only [step, blocked_mk]
+    rcases (add_spec a x m hinv).1 with ⟨ok, _⟩ | ⟨⟨hb, hf⟩, _⟩
+    · rw [ok]; simp
+    · rcases hb with ⟨e, h⟩ | ⟨e, h⟩ <;> rw [e] <;> simp [h, hf]
+  | addAt x i =>
+    simp only [step, blocked_mk]
+    rcases (addAt_spec a x i m hinv).1 with ⟨_, ⟨ok, _⟩ | ⟨⟨hb, hf⟩, _⟩⟩ | ⟨_, heq⟩
+    · rw [ok]; simp
+    · rcases hb with ⟨e, h⟩ | ⟨e, h⟩ <;> rw [e] <;> simp [h, hf]
+    · rw [heq]; simp
+  | trimCapacity =>
+    simp only [step, blocked_mk]
+    have hcase : (a.trimCapacity m).1 = .ok ∨ ((a.trimCapacity m).1 = .errAlloc ∧ (m.allocT a.triple).1 = false) := by
+      rcases (trimCapacity_spec a m hinv).1 with ⟨ok, _⟩ | ⟨e, h, _⟩
+      · exact Or.inl ok
+      · exact Or.inr ⟨e, h⟩
+    rcases hcase with ok | ⟨e, h⟩
+    · rw [ok]; simp
+    · rw [e]; simp [h]
+  | replaceAt x i =>
+    obtain ⟨r1, _⟩ := replaceAt_spec a x i m hinv
+    have : (a.replaceAt x i m).1 ≠ .errAlloc ∧ (a.replaceAt x i m).1 ≠ .errMaxCapacity := by
+      rw [r1]; unfold Spec.Seq.replaceAt; split <;> simp
+    obtain ⟨k1, k2⟩ := key _ this.1 this.2 (a.replaceAt x i m).2.1 []
+    exact ⟨fun h => (k1 h).elim, fun h => (k2 h).elim⟩
+  | swapAt i j =>
+    obtain ⟨r1, _⟩ := swapAt_spec a i j m hinv
+    have : (a.swapAt i j m).1 ≠ .errAlloc ∧ (a.swapAt i j m).1 ≠ .errMaxCapacity := by
+      rw [r1]; unfold Spec.Seq.swapAt; split <;> simp
+    obtain ⟨k1, k2⟩ := key _ this.1 this.2 none []
+    exact ⟨fun h => (k1 h).elim, fun h => (k2 h).elim⟩
+  | remove x =>
+    obtain ⟨r1, _⟩ := remove_spec a x m hinv
+    have : (a.remove x m).1 ≠ .errAlloc ∧ (a.remove x m).1 ≠ .errMaxCapacity := by
+      rw [r1]; unfold Spec.Seq.remove; split <;> simp
+    obtain ⟨k1, k2⟩ := key _ this.1 this.2 (a.remove x m).2.1 []
+    exact ⟨fun h => (k1 h).elim, fun h => (k2 h).elim⟩
+  | removeAt i =>
+    obtain ⟨r1, _⟩ := removeAt_spec a i m hinv
+    have : (a.removeAt i m).1 ≠ .errAlloc ∧ (a.removeAt i m).1 ≠ .errMaxCapacity := by
+      rw [r1]; unfold Spec.Seq.removeAt; split <;> simp
+    obtain ⟨k1, k2⟩ := key _ this.1 this.2 (a.removeAt i m).2.1 []
+    exact ⟨fun h => (k1 h).elim, fun h => (k2 h).elim⟩
+  | removeLast =>
+    obtain ⟨r1, _⟩ := removeLast_spec a m hinv
+    have : (a.removeLast m).1 ≠ .errAlloc ∧ (a.removeLast m).1 ≠ .errMaxCapacity := by
+      rw [r1]; unfold Spec.Seq.removeLast; split <;> simp
+    obtain ⟨k1, k2⟩ := key _ this.1 this.2 (a.removeLast m).2.1 []
+    exact ⟨fun h => (k1 h).elim, fun h => (k2 h).elim⟩
+  | filterMut =>
+    obtain ⟨r1, _⟩ := filterMut_spec cfg.pred a m hinv
+    have : (a.filterMut cfg.pred m).1 ≠ .errAlloc ∧ (a.filterMut cfg.pred m).1 ≠ .errMaxCapacity := by
+      rw [r1]; unfold Spec.Seq.filterMut; split <;> simp
+    obtain ⟨k1, k2⟩ := key _ this.1 this.2 none (a.filterMut cfg.pred m).2.2.1
+    exact ⟨fun h => (k1 h).elim, fun h => (k2 h).elim⟩
+  | getAt i =>
+    obtain ⟨r1, _⟩ := getAt_spec a i m hinv
+    have : (a.getAt i m).1 ≠ .errAlloc ∧ (a.getAt i m).1 ≠ .errMaxCapacity := by
+      rw [r1]; unfold Spec.Seq.getAt; split <;> simp
+    obtain ⟨k1, k2⟩ := key _ this.1 this.2 (a.getAt i m).2.1 []
+    exact ⟨fun h => (k1 h).elim, fun h => (k2 h).elim⟩
+  | getLast =>
+    obtain ⟨r1, _⟩ := getLast_spec a m hinv
+    have : (a.getLast m).1 ≠ .errAlloc ∧ (a.getLast m).1 ≠ .errMaxCapacity := by
+      rw [r1]; unfold Spec.Seq.getLast; split <;> simp
+    obtain ⟨k1, k2⟩ := key _ this.1 this.2 (a.getLast m).2.1 []
+    exact ⟨fun h => (k1 h).elim, fun h => (k2 h).elim⟩
+  | indexOf x =>
+    obtain ⟨r1, _⟩ := indexOf_spec a x m hinv
+    have : (a.indexOf x m).1 ≠ .errAlloc ∧ (a.indexOf x m).1 ≠ .errMaxCapacity := by
+      rw [r1]; unfold Spec.Seq.indexOf; split <;> simp
+    obtain ⟨k1, k2⟩ := key _ this.1 this.2 (a.indexOf x m).2.1 []
+    exact ⟨fun h => (k1 h).elim, fun h => (k2 h).elim⟩
+  | removeAll | removeAllFree | reverse | sort | contains _ | containsValue _ | size | map | reduce _ =>
+    simp [step, Out.blocked]
+
+theorem expandCapacity_sched_nil (a : Arr) (m : Mem) (hs : m.sched = []) : (a.expandCapacity m).2.2.sched = [] := by
+  by_cases hmax : a.AtLimit
+  · rw [expandCapacity_max a m hmax]; exact hs
+  · have hal := allocT_never_refuses m a.triple hs
+    rw [expandCapacity_success a m hmax hal.1]
+    simp only [freeT_sched, Mem.check_sched]; exact hal.2
+
+theorem add_sched_nil (a : Arr) (x : Nat) (m : Mem) (hs : m.sched = []) : (a.add x m).2.2.sched = [] := by
+  have he := expandCapacity_sched_nil a m hs
+  unfold add
+  split
+  · simp only
+    split
+    · exact he
+    · simp only [store, Mem.check_sched]; exact he
+  · simp only [store, Mem.check_sched]; exact hs
+
+theorem addAt_sched_nil (a : Arr) (x i : Nat) (m : Mem) (hs : m.sched = []) : (a.addAt x i m).2.2.sched = [] := by
+  have he := expandCapacity_sched_nil a m hs
+  unfold addAt
+  split
+  · exact add_sched_nil a x m hs
+  · split
+    · exact hs
+    · split
+      · simp only
+        split
+        · exact he
+        · simp only [insertShift, Mem.check_sched]; exact he
+      · simp only [insertShift, Mem.check_sched]; exact hs
+
+theorem trimCapacity_sched_nil (a : Arr) (m : Mem) (hs : m.sched = []) : (a.trimCapacity m).2.2.sched = [] := by
+  have hal := allocT_never_refuses m a.triple hs
+  unfold trimCapacity
+  by_cases h1 : a.size = a.capacity
+  · simp only [if_pos h1]; exact hs
+  · simp only [if_neg h1]
+    by_cases h2 : (if a.size < 1 then 1 else a.size) = a.capacity
+    · simp only [if_pos h2]; exact hs
+    · simp only [if_neg h2, hal.1, Bool.not_true, Bool.false_eq_true, if_false, freeT_sched, Mem.check_sched]
+      exact hal.2
+
+/-- an allocator that never refuses stays one through every call -/
+theorem step_sched_nil (cfg : Cfg) (a : Arr) (op : Op) (m : Mem) (hinv : a.Inv) (hs : m.sched = []) :
+    (a.step cfg op m).2.2.sched = [] := by
+  have h := (step_indep cfg a op m { sched := [] } hinv hs).2.2
+  cases op with
+  | add x => exact add_sched_nil a x m hs
+  | addAt x i => exact addAt_sched_nil a x i m hs
+  | trimCapacity => exact trimCapacity_sched_nil a m hs
+  | replaceAt x i => simp only [step, (replaceAt_spec a x i m hinv).2.2.2.2.2.1]; exact hs
+  | swapAt i j => simp only [step, (swapAt_spec a i j m hinv).2.2.2.2.1]; exact hs
+  | remove x => simp only [step, (remove_spec a x m hinv).2.2.2.2.2.1]; exact hs
+  | removeAt i => simp only [step, (removeAt_spec a i m hinv).2.2.2.2.2.1]; exact hs
+  | removeLast => simp only [step, (removeLast_spec a m hinv).2.2.2.2.2.1]; exact hs
+  | removeAll => exact hs
+  | removeAllFree => simp only [step, (removeAllFree_spec a m hinv).2.2.2.2]; exact hs
+  | reverse => simp only [step, (reverse_spec a m hinv).2.2.2]; exact hs
+  | filterMut => simp only [step, (filterMut_spec cfg.pred a m hinv).2.2.2.2.1]; exact hs
+  | sort => simp only [step, sort, Mem.check_sched]; exact hs
+  | getAt i => simp only [step, (getAt_spec a i m hinv).2.2.1]; exact hs
+  | getLast => simp only [step, (getLast_spec a m hinv).2.2.1]; exact hs
+  | indexOf x => simp only [step, (indexOf_spec a x m hinv).2.2.1]; exact hs
+  | contains x => simp only [step, contains, Mem.check_sched]; exact hs
+  | containsValue x => simp only [step, containsValue, Mem.check_sched]; exact hs
+  | size => exact hs
+  | map => simp only [step, map, Mem.check_sched]; exact hs
+  | reduce r0 => simp only [step, (reduce_spec cfg.fn a r0 m hinv).2.2]; exact hs
+
+theorem spec_step_length (cfg : Cfg) (xs : List Nat) (op : Op) (blk : Option Stat) :
+    (Spec.Seq.step cfg xs op blk).2.length ≤ xs.length + 1 := by
+  cases op <;> simp only [Spec.Seq.step]
+  case add x => cases blk <;> simp [Spec.Seq.add]
+  case addAt x i =>
+    cases blk
+    · simp only [Spec.Seq.addAt]; split <;> simp [List.length_insertIdx] <;> split <;> omega
+    · simp
+  case trimCapacity => cases blk <;> simp
+  case replaceAt x i => simp only [Spec.Seq.replaceAt]; split <;> simp
+  case swapAt i j => simp only [Spec.Seq.swapAt]; split <;> simp
+  case remove x => simp only [Spec.Seq.remove]; split <;> simp [List.length_erase] <;> split <;> omega
+  case removeAt i => simp only [Spec.Seq.removeAt]; split <;> simp [List.length_eraseIdx] <;> split <;> omega
+  case removeLast => simp only [Spec.Seq.removeLast]; split <;> simp <;> omega
+  case removeAll => simp [Spec.Seq.removeAll]
+  case removeAllFree => simp [Spec.Seq.removeAllFree]
+  case reverse => simp [Spec.Seq.reverse]
+  case filterMut =>
+    simp only [Spec.Seq.filterMut]; split
+    · simp
+    · have := List.length_filter_le cfg.pred xs; simp only; omega
+  all_goals simp
 
 end CC.Arr
